@@ -16,8 +16,7 @@ import HL.Model.Classes
   `End = e.position`, and the new lexer state `e` — in lexer.go every token is built from a
   `startPos := l.position()` taken at some state and `End: l.position()` of the final state.
 
-  Transcribed, not repaired: the one-character tokens `( ) [ ] |` are built by `makeToken` after
-  `advance`, so `Pos = End` = the position *behind* the character; `scanAccount` ends its token (`End`) after trailing single blanks
+  Transcribed, not repaired: `scanAccount` ends its token (`End`) after trailing single blanks
   although the value stops at the last non-blank; `scanText` trims the value but not the
   extent; `scanDirectiveOrAccount` / `scanCommodityOrText` rewind `pos` and `column`.
 
@@ -373,11 +372,9 @@ def scanCommodityOrText (C : Classes) (z : Z) : Token × Z :=
     if looksLikeCommodity C value then mkTok .commodity value z z2
     else scanText z          -- `l.pos = start; l.column = startPos.Column`
 
-/-- `l.advance(); return l.makeToken(ty, v)`: `makeToken` takes `l.position()` *after* the
-    advance for both `Pos` and `End` — the token is empty and sits behind its character. -/
+/-- `l.scanPunct(ty, v)`: a one-character token `( ) [ ] |` that covers its character. -/
 def punct (ty : TokType) (val : Bytes) (z : Z) : Token × Z :=
-  let e := advance z
-  mkTok ty val e e
+  mkTok ty val z (advance z)
 
 /-- `scanInLine` behind `l.skipSpaces()`. -/
 def scanInLineAt (C : Classes) (z : Z) : Token × Z :=
